@@ -102,6 +102,42 @@ theorem edifify_order_identity (n : CNetlist) (prog ver : Option Str) (t : CInst
   have hwf' := wfNet_img n (tsInts y mo d h mi s) prog ver t li di hwf
   exact ⟨e, _, hw, hr, topoSort_libs _ _ _ _ _ _ hwf' fuel, fun L l hl => topoSort_defs _ _ _ _ _ _ hwf' L l hl fuel⟩
 
+/-- what `_edifify_netlist` does, as one predicate: its naming phase and its ordering phase both leave `n` as it is -/
+def EdififyFixed (mk : Data → Str) (fuel : Nat) (n : CNetlist) : Prop :=
+  mapData (addRename mk) n = n ∧
+  topoSort (libDeps n) (fuel + 1) (List.range n.libs.length) = List.range n.libs.length ∧
+  ∀ L l, n.libs[L]? = some l → topoSort (defDeps n L) (fuel + 1) (List.range l.defs.length) = List.range l.defs.length
+
+/-- **compose_after_parse** — the implementation's `compose` is `_edifify_netlist` followed by the writer; `composeE` is the
+    writer alone.  In ONE statement: for `f = compose(n)`, `n` inside `WFNet`, the reader accepts `f`, returns `pf`;
+    `_edifify_netlist` (naming phase for any `make_valid`, ordering phase for any fuel ≥ 1 and any order of the
+    dependency sets) leaves `pf` unchanged; the writer's text for `pf` is accepted again and read back as `pf` itself
+    when the time stamps agree (same view, libraries and top instance otherwise). -/
+theorem compose_after_parse (mk : Data → Str) (fuel : Nat) (n : CNetlist) (prog ver : Option Str) (t : CInst) (li di : Nat)
+    (y mo d h mi s y' mo' d' h' mi' s' : Nat) (hwf : WFNet n prog ver t li di) :
+    ∃ f pf, composeE [y, mo, d, h, mi, s] n = .ok f ∧ readEdif f = .ok pf ∧ EdififyFixed mk fuel pf ∧
+      ∃ f' pcpf, composeE [y', mo', d', h', mi', s'] pf = .ok f' ∧ readEdif f' = .ok pcpf ∧
+        view03 pcpf = view03 pf ∧ pcpf.libs = pf.libs ∧ pcpf.top = pf.top ∧
+        (tsInts y' mo' d' h' mi' s' = tsInts y mo d h mi s → pcpf = pf) := by
+  obtain ⟨f, pf, hc, hr, f', pcpf, hc', hr', hv, hl, ht, hts⟩ :=
+    parse_compose_parse n prog ver t li di y mo d h mi s y' mo' d' h' mi' s' hwf
+  -- `pf` is the image of `n`
+  obtain ⟨e, hw, hre⟩ := edif_roundtrip_wf n prog ver t li di y mo d h mi s hwf
+  have hclean := toSExp_clean n prog ver t li di y mo d h mi s hwf e hw
+  have hf : f = layoutE e := by
+    simp only [composeE, hw, bind, Except.bind, pure, Except.pure, Except.ok.injEq] at hc
+    exact hc.symm
+  have hpf : pf = imgNet n (tsInts y mo d h mi s) prog ver t li di := by
+    rw [hf] at hr
+    simp only [readEdif, Spydr.Edif.read_lex_layout e hclean] at hr
+    rw [hre] at hr
+    exact (Except.ok.inj hr).symm
+  have hwf' := wfNet_img n (tsInts y mo d h mi s) prog ver t li di hwf
+  refine ⟨f, pf, hc, hr, ?_, f', pcpf, hc', hr', hv, hl, ht, hts⟩
+  rw [hpf]
+  exact ⟨edifify_names_img mk n _ prog ver t li di, topoSort_libs _ _ _ _ _ _ hwf' fuel,
+    fun L l hl' => topoSort_defs _ _ _ _ _ _ hwf' L l hl' fuel⟩
+
 /-! non-vacuity: the hypothesis holds for the example netlist of Props/C03.lean (two libraries, a leaf
     cell, an instantiating cell with a bus and a scalar net, properties, a renamed port) -/
 namespace Example
